@@ -129,7 +129,18 @@ pub fn run_text_case(r: &RefName, judged: bool, l: &mut Local) {
     if judged {
         match present_host(r) {
             Some(rt) if rt == t => l.outcome("text:to_ascii-equals-reference-presentation"),
-            _ => l.outcome("obs:to_ascii-differs-from-reference-presentation"),
+            Some(rt) => {
+                // hickory prints this name differently from the RFC 1035 5.1 reference printer: its
+                // parser is then also fed the reference text (producer independent of hickory)
+                l.outcome("obs:to_ascii-differs-from-reference-presentation");
+                match catch(|| Name::from_ascii(&rt)) {
+                    Ok(Ok(n)) if observe(&n) == *r => l.outcome("text:parse-of-reference-presentation:ok"),
+                    Ok(Ok(_)) => l.violation(&format!("text:parse-of-reference-presentation:changed:{feat}"), "from_ascii(RFC 1035 text of the name) is a different name", case),
+                    Ok(Err(_)) => l.violation(&format!("text:parse-of-reference-presentation:rejected:{feat}"), "from_ascii rejects the RFC 1035 text of a host-style name", case),
+                    Err(p) => l.violation(&format!("panic:{}", vcore::short_loc(&p.loc)), &p.msg, case),
+                }
+            }
+            None => {}
         }
     }
     match catch(|| Name::from_ascii(&t)) {
@@ -323,4 +334,92 @@ fn parse_host_text(t: &str) -> Option<RefName> {
         labels.push(cur);
     }
     Some(RefName::new(labels, last_sep))
+}
+
+// ------------------------------------------------------------------------------------------
+// escape family (audit round): every octet 0..=255 at the first / middle / last position of a label
+
+fn octet_class(b: u8) -> &'static str {
+    if b.is_ascii_alphanumeric() || b == b'-' || b == b'_' {
+        "host"
+    } else if b == b'.' {
+        "dot"
+    } else if b == b'*' {
+        "star"
+    } else if b == b'\\' {
+        "backslash"
+    } else if b.is_ascii_graphic() {
+        "other-printable"
+    } else if b < 0x80 {
+        "control-or-space"
+    } else {
+        "high"
+    }
+}
+
+/// The statement promises the text round trip for host-style names only; for every other octet
+/// the printers must still not panic, agree with one another, and whatever the parsers accept back
+/// must obey the length limits. What round-trips and how it is escaped is recorded as observations
+/// (`\DDD` is written and read in OCTAL by hickory; RFC 1035 5.1 says decimal).
+pub fn run_escape_case(b: u8, pos: usize, fqdn: bool, l: &mut Local) {
+    l.eval();
+    let label: Vec<u8> = match pos {
+        0 => vec![b, b'a', b'a'],
+        1 => vec![b'a', b, b'a'],
+        2 => vec![b'a', b'a', b],
+        _ => vec![b],
+    };
+    let r = RefName::new(vec![label, b"z".to_vec()], fqdn);
+    let case = || json!({"family": "escape", "octet": b, "pos": pos, "fqdn": fqdn, "name": name_json(&r)});
+    let Ok(h) = build(&r) else {
+        l.violation("construct:from_labels-rejects-valid", "arbitrary octets are valid label content", case);
+        return;
+    };
+    let printed = catch(|| (h.to_ascii(), h.to_utf8(), h.to_string(), format!("{h}"), format!("{h:?}")));
+    let (a, u, s, d, _dbg) = match printed {
+        Ok(x) => x,
+        Err(p) => {
+            l.violation(&format!("panic:{}", vcore::short_loc(&p.loc)), &p.msg, case);
+            return;
+        }
+    };
+    if u != s || s != d {
+        l.violation("escape:printers-disagree", "to_utf8 / to_string / Display differ", case);
+    }
+    let cls = octet_class(b);
+    let host = vref::name::is_host_style(&r);
+    l.outcome(&format!("obs:escape:{cls}:to_ascii-{}", if a == vref::name::present_any(&r) { "equals-rfc-decimal-presentation" } else { "differs-from-rfc-decimal-presentation" }));
+    for (who, text, res) in [
+        ("from_ascii", &a, catch(|| Name::from_ascii(&a).map_err(|e| e.to_string()))),
+        ("from_str", &s, catch(|| Name::from_str(&s).map_err(|e| e.to_string()))),
+    ] {
+        let _ = text;
+        match res {
+            Err(p) => l.violation(&format!("panic:{}", vcore::short_loc(&p.loc)), &p.msg, case),
+            Ok(Err(_)) => {
+                if host {
+                    l.violation(&format!("escape:{who}:host-style-rejected:{cls}"), "a host-style name does not survive the text round trip", case);
+                } else {
+                    l.outcome(&format!("obs:escape:{cls}:{who}-rejects-own-output"));
+                }
+            }
+            Ok(Ok(n)) => {
+                let got = observe(&n);
+                if vref::name::validate(&got.labels).is_err() {
+                    l.violation(&format!("escape:{who}:limits"), "re-parsed name violates the length limits", case);
+                } else if vref::name::labels_eq_fold(&got.labels, &r.labels) && got.fqdn == r.fqdn {
+                    l.outcome(&format!("escape:{cls}:{who}-roundtrip-ok"));
+                    l.nontrivial(fnv64(a.as_bytes()) ^ fnv64(who.as_bytes()));
+                } else if host {
+                    l.violation(&format!("escape:{who}:host-style-changed:{cls}"), "a host-style name changed in the text round trip", case);
+                } else {
+                    l.outcome(&format!("obs:escape:{cls}:{who}-roundtrip-changes-the-name"));
+                }
+            }
+        }
+    }
+}
+
+pub fn replay_escape(case: &Value, l: &mut Local) {
+    run_escape_case(case["octet"].as_u64().unwrap_or(0) as u8, case["pos"].as_u64().unwrap_or(0) as usize, case["fqdn"].as_bool().unwrap_or(true), l);
 }
